@@ -21,11 +21,18 @@ enum Secret {
     StatusRaw,
 }
 
+#[derive(Debug, Command)]
+enum More {
+    /// A later group holds a name that extends a name of an earlier group
+    StatusAll,
+}
+
 #[derive(Debug, CommandGroup)]
 enum Group {
     Visible(Visible),
     #[group(hidden)]
     Secret(Secret),
+    More(More),
 }
 
 fn tab(prefix: &str) -> Result<String, String> {
@@ -43,7 +50,8 @@ fn tab(prefix: &str) -> Result<String, String> {
 
 pub fn run(_r: &mut Rng, _iters: usize) -> Option<Cex> {
     // (typed, line after Tab)
-    let cases: &[(&str, &str)] = &[("w", "w"), ("wi", "wi"), ("st", "status "), ("status", "status "), ("status-", "status-"), ("re", "reboot "), ("x", "x")];
+    // visible names: status, reboot, status-all (declared in a later group); hidden: wipe, status-raw
+    let cases: &[(&str, &str)] = &[("w", "w"), ("wi", "wi"), ("st", "status"), ("status", "status"), ("status-", "status-all "), ("status-r", "status-r"), ("re", "reboot "), ("x", "x")];
     for (typed, expected) in cases {
         let expected = if cfg!(feature = "autocomplete") { *expected } else { *typed };
         match tab(typed) {
